@@ -460,7 +460,18 @@ def vec_step_ok(t):
         return vec_step_ok(t[1]) and vec_step_ok(t[2])
     if k in ('lscal', 'ssum', 'transl', 'rscal'):
         return vec_step_ok(t[-1])
+    if k in ('qpert', 'breg'):
+        # element-valued steps go through np.asarray(sigma): tensor-space domains only
+        return vec_step_ok(t[-1]) and tree_is_flat(t[-1]) and not (k == 'qpert' and t[1] < 0)
     return False
+
+
+def tree_is_flat(t):
+    if t[0] == 'leaf':
+        return 'ProductSpace' not in t[3].code
+    if t[0] == 'sep':
+        return False
+    return tree_is_flat(t[-1])
 
 
 def rand_step(rng, t, allow_struct=True):
@@ -564,6 +575,8 @@ def tree_cases(rng, tier):
             step = rand_step(rng, t, allow_struct=(rep == 1))
             if conj:
                 step = ('scal', pos(rng))
+                if vec_step_ok(t) and tree_is_flat(t) and rng.random() < 0.5:
+                    step = ('vec', [pos(rng) for _ in range(n)])
             r = rng.random()
             x = kink_points(rng, n, step) if r < 0.3 else ([0.0] * n if r < 0.36 else vec(rng, n))
             X = f.domain
